@@ -1,6 +1,10 @@
 use crate::errors::PriceLevelError;
 use crate::orders::{OrderId, OrderType};
+#[cfg(pricelevel_verif)]
+use crate::verif_shim::{DashMap, SegQueue};
+#[cfg(not(pricelevel_verif))]
 use crossbeam::queue::SegQueue;
+#[cfg(not(pricelevel_verif))]
 use dashmap::DashMap;
 use serde::de::{SeqAccess, Visitor};
 use serde::ser::SerializeSeq;
@@ -224,5 +228,23 @@ impl<'de> Deserialize<'de> for OrderQueue {
         //     queue.push(Arc::new(order));
         // }
         // Ok(queue)
+    }
+}
+
+#[cfg(pricelevel_verif)]
+impl OrderQueue {
+    /// Verification only: the ticket sequence, head first (no event).
+    pub fn verif_tickets(&self) -> Vec<OrderId> {
+        self.order_ids.shadow()
+    }
+
+    /// Verification only: the map content in map order (no event).
+    pub fn verif_orders(&self) -> Vec<Arc<OrderType<()>>> {
+        self.orders.raw().iter().map(|o| o.value().clone()).collect()
+    }
+
+    /// Verification only: object ids of the map and of the ticket queue.
+    pub fn verif_oids(&self) -> (usize, usize) {
+        (self.orders.oid(), self.order_ids.oid())
     }
 }
